@@ -54,7 +54,7 @@ class SimSocket(object):
         self.rx = None
         self.closed = False
         self.shut_wr = False
-        self.timeout = None
+        self.timeout = getattr(net, 'default_timeout', None)   # socket.setdefaulttimeout()
         self.connected = False
         self.addr = None
         self.short_reads = False
@@ -131,7 +131,7 @@ class SimSocket(object):
         if self.on_send is not None:
             self.on_send(self, data)
         tx = self.tx
-        if tx.capacity is not None and not tx.auto and len(data) > tx.room():
+        if tx.capacity is not None and len(data) > tx.room():
             return self._send_throttled(data)
         tx.total_written += len(data)
         tx.boundaries.append(tx.total_written)
@@ -167,7 +167,11 @@ class SimSocket(object):
             part = data[pos:pos + room]
             pos += len(part)
             tx.total_written += len(part)
-            tx.segs.append([sim.now + tx.latency, bytearray(part)])
+            if tx.auto:
+                tx.rcvbuf += part
+                tx.total_delivered += len(part)
+            else:
+                tx.segs.append([sim.now + tx.latency, bytearray(part)])
         tx.boundaries.append(tx.total_written)
         return None
 
@@ -417,11 +421,17 @@ class Net(object):
         addr = tuple(addr)
         sim.log('connect', sock.name, addr)
         fault = self.connect_fault
-        if fault == 'refused' or addr not in self.listeners:
+        hang = fault == 'timeout' or addr in getattr(self, 'hang_addrs', ())
+        if not hang and (fault == 'refused' or addr not in self.listeners):
             sim.bump('net.connect_refused')
             raise ConnectionRefusedError(errno.ECONNREFUSED, 'Connection refused')
-        if fault == 'timeout':
+        if hang:
+            # nobody answers the SYN: the kernel gives up after about 75 s, a socket time-out
+            # set by the caller ends the wait earlier
             sim.bump('net.connect_timeout')
+            if sock.timeout is not None and sock.timeout < 75.0:
+                sim.sleep(sock.timeout)
+                raise _realsocket.timeout('timed out')
             sim.sleep(75.0)
             raise TimeoutError(errno.ETIMEDOUT, 'Connection timed out')
         cb, opts = self.listeners[addr]
@@ -643,6 +653,14 @@ class SocketNS(object):
 
     def socket(self, *a, **k):
         return self.net.socket()
+
+    def setdefaulttimeout(self, t):
+        # process-wide, as the real one: every socket created from now on starts with it,
+        # the ones a listening socket accepts included
+        self.net.default_timeout = t
+
+    def getdefaulttimeout(self):
+        return getattr(self.net, 'default_timeout', None)
 
     def create_connection(self, addr, timeout=None, source_address=None):
         s = self.net.socket()
